@@ -142,11 +142,14 @@ def _evaluate(mod, case, S):
         raise
     except Exception as e:  # noqa: BLE001
         et, ev, tb = sys.exc_info()
-        last = traceback.extract_tb(tb)[-1]
+        frames = traceback.extract_tb(tb)
         fr = _pdesy_frame(tb)
-        if fr is not None and os.path.realpath(last.filename).startswith(
-            os.path.realpath(S.REPO) + os.sep
-        ):
+        # raised inside pDESy, or inside library code that pDESy called (json, numpy, ...): everything below the
+        # innermost harness frame belongs to the code under test
+        verif_root = os.path.realpath(os.path.dirname(os.path.dirname(os.path.abspath(__file__)))) + os.sep
+        last_harness = max([i for i, f in enumerate(frames) if os.path.realpath(f.filename).startswith(verif_root)] or [-1])
+        last_pdesy = max([i for i, f in enumerate(frames) if os.path.realpath(f.filename).startswith(os.path.realpath(S.REPO) + os.sep)] or [-1])
+        if fr is not None and last_pdesy > last_harness:
             res = Result()
             res.fail(
                 mod.PID + ".crash",
